@@ -22,7 +22,7 @@ def sel(pool, idx, key):
     return acc
 
 
-def h_schedule(ctx, frags, events, body, via="queue", qmax=None, prefix=()):
+def h_schedule(ctx, frags, events, body, via="queue", qmax=None, prefix=(), mc_second=False):
     """frags: fragments per sender, e.g. [3, 2]; body: bytes per fragment"""
     from circuitpython_nrf24l01.network.structs import RF24NetworkFrame, FrameQueueFrag
     from vsym.core import SBytes
@@ -43,12 +43,19 @@ def h_schedule(ctx, frags, events, body, via="queue", qmax=None, prefix=()):
             from specs import net_spec as NS
             ctx.assume(s_and(NS.valid(origin), origin != me))
         fid = ctx.int("id%d" % s, 0, 0xFFFF)
-        for m in msgs:  # different senders, or two messages of one sender (which then carry different frame ids)
-            ctx.assume(s_or(origin != m["origin"], fid != m["id"]))
+        to = me
+        if mc_second and s == 1:
+            # the same sender's next message is a multicast: multicast() re-uses the frame id of the header sent last, so the two
+            # streams differ in the destination field only
+            ctx.assume(s_and(origin == msgs[0]["origin"], fid == msgs[0]["id"], me != 0o100))
+            to = 0o100
+        else:
+            for m in msgs:  # different senders, or two messages of one sender (which then carry different frame ids)
+                ctx.assume(s_or(origin != m["origin"], fid != m["id"]))
         mtype = ctx.int("type%d" % s, 0, 127)
         data = blist(ctx.bytes("msg%d" % s, f * body))
-        msgs.append(dict(origin=origin, id=fid, type=mtype, data=data))
-        pool.extend(FS.fragments(origin, me, fid, mtype, data, frag_size=body))
+        msgs.append(dict(origin=origin, id=fid, type=mtype, data=data, to=to))
+        pool.extend(FS.fragments(origin, to, fid, mtype, data, frag_size=body))
     q = FrameQueueFrag() if node is None else node.queue
     if qmax is not None:  # a queue this small refuses completed messages while the application has not read the earlier ones
         q.max_queue_size = qmax
@@ -97,13 +104,13 @@ def h_schedule(ctx, frags, events, body, via="queue", qmax=None, prefix=()):
             if len(d.message) != len(m["data"]):
                 hits.append(False)
                 continue
-            eq = s_and(d.header.from_node == m["origin"], d.header.frame_id == m["id"],
+            eq = s_and(d.header.from_node == m["origin"], d.header.frame_id == m["id"], d.header.to_node == m["to"],
                        d.header.message_type == m["type"], bytes_eq(d.message, m["data"]))
             hits.append(eq)
             counts[i] = counts[i] + s_ite(eq, 1, 0)
         ctx.check(s_or(*hits), "every delivered message is byte-for-byte one complete message that was sent, "
                                "with its type and origin")
-        ctx.check(d.header.to_node == me, "delivered message is addressed to this node")
+        ctx.check(s_or(d.header.to_node == me, s_and(mc_second, d.header.to_node == 0o100)), "delivered message is addressed to this node")
     for c in counts:
         ctx.check(c <= 1, "one transmitted message is delivered at most once")
     ctx.observe("n_delivered", len(delivered))
@@ -197,6 +204,9 @@ def jobs(tier):
     for frags, events in plan:
         out.append(Job("symbolic-delivery-schedule", h_schedule, dict(frags=frags, events=events, body=2),
                        cost=len(frags) * events ** 2, shards=(1 if tier == "quick" or events < 5 else 8)))
+    for frags, events in ((([2, 2], 4), ([3, 2], 4)) if tier == "quick" else (([2, 2], 5), ([3, 2], 5), ([3, 3], 5), ([2, 3], 5))):
+        out.append(Job("symbolic-delivery-schedule-unicast-then-multicast-with-the-same-id", h_schedule,
+                       dict(frags=frags, events=events, body=2, mc_second=True), cost=len(frags) * events ** 2, shards=(1 if events < 5 else 8)))
     # a queue of one frame: the first message is delivered in order and stays unread while the second arrives (refused); the rest is free
     for frags, events, prefix in ((([2, 2], 6, [0, 1, 2]), ([3, 2], 6, [0, 1, 2])) if tier == "quick" else
                                   (([2, 2], 7, [0, 1, 2]), ([3, 2], 7, [0, 1, 2]), ([2, 3], 7, [0, 1]), ([2, 2, 2], 7, [0, 1, 2, 3]), ([2, 2], 5, []))):
